@@ -36,6 +36,64 @@ type In32 struct {
 type Raw32 struct {
 	In   *In32  `json:"in"`
 	Note string `json:"note,omitempty"`
+	// Oracle (round 7): non-empty when the returned chol / ldl factors violate the property's statement on this
+	// input by the harness's own float64 residual (a concrete failing input for a mismatch of the binary32 replay)
+	Oracle string `json:"oracle,omitempty"`
+}
+
+// oracle32: L lower triangular (unit for ldl), D diagonal and positive, max |L L^T - A| resp. |L D L^T - A| within
+// 16 n^2 2^-24 max|A| (far above the backward error bound (n+1) u |L||L^T| of the binary32 recurrences).
+// fpd is not judged here (it may legitimately modify A).  "" = satisfied / not applicable.
+func oracle32(in *In32, o *Out) string {
+	if o.Err || o.Panic != "" || (in.Kind != "chol" && in.Kind != "ldl") || len(o.Ms) == 0 || o.Ms[0] == nil {
+		return ""
+	}
+	n := in.M.R
+	L := o.Ms[0]
+	if !L.Finite() {
+		return in.Kind + ": non-finite factor L"
+	}
+	for i := 0; i < n; i++ {
+		for j := i + 1; j < n; j++ {
+			if L.At(i, j) != 0 {
+				return fmt.Sprintf("%s: L(%d,%d) = %v above the diagonal", in.Kind, i, j, L.At(i, j))
+			}
+		}
+	}
+	P := L.Mul(L.T())
+	if in.Kind == "ldl" {
+		if len(o.Ms) < 2 || o.Ms[1] == nil || !o.Ms[1].Finite() {
+			return "ldl: D missing or non-finite"
+		}
+		D := o.Ms[1]
+		for i := 0; i < n; i++ {
+			if L.At(i, i) != 1 {
+				return fmt.Sprintf("ldl: L(%d,%d) = %v is not 1", i, i, L.At(i, i))
+			}
+			for j := 0; j < n; j++ {
+				if i != j && D.At(i, j) != 0 {
+					return fmt.Sprintf("ldl: D(%d,%d) = %v off the diagonal", i, j, D.At(i, j))
+				}
+			}
+			if !(D.At(i, i) > 0) {
+				return fmt.Sprintf("ldl: D(%d,%d) = %v is not positive", i, i, D.At(i, i))
+			}
+		}
+		P = L.Mul(D).Mul(L.T())
+	}
+	tol := 16 * float64(n*n) * math.Ldexp(1, -24) * in.M.MaxAbs()
+	worst := 0.0
+	for i := 0; i < n; i++ {
+		for j := 0; j < n; j++ {
+			if d := math.Abs(P.At(i, j) - in.M.At(i, j)); d > worst {
+				worst = d
+			}
+		}
+	}
+	if worst > tol {
+		return fmt.Sprintf("%s (%s, InSitu mode %s): factors do not reproduce A: max residual %.3g (tolerance %.3g)", in.Kind, in.Path, in.Mode, worst, tol)
+	}
+	return ""
 }
 
 func round32(m *FM) *FM {
@@ -284,7 +342,11 @@ func (rn *runner32) run(in *In32) *Out {
 			}
 		}
 	}
-	w.Add(coqCase32(in, o), Raw32{In: in}, in.Key(), in.M.R >= 2)
+	raw := Raw32{In: in}
+	if raw.Oracle = oracle32(in, o); raw.Oracle != "" {
+		w.Count("oracle32:factors-violate-the-statement")
+	}
+	w.Add(coqCase32(in, o), raw, in.Key(), in.M.R >= 2)
 	return o
 }
 
